@@ -233,7 +233,7 @@ type Event struct {
 	VR      []string `json:"vr"`
 	VS      []string `json:"vs"`
 	Perr    string   `json:"perr"`
-	Demo    string   `json:"demo"` // binding demo only: accept | reject | d4 (what TLC has to say)
+	Demo    string   `json:"demo"` // binding demo only: accept | reject | d4 = accept or the known D4 signature (what TLC has to say)
 }
 
 func bufBytes(br bitio.ReaderAtSeeker) ([]byte, int64) {
